@@ -8,6 +8,6 @@ OUT=$1
 /verif/harness/build.sh asan -DJLS_VERIF_MRB_BUFFER_SIZE=262144 >/dev/null
 REPO=${JLS_REPO:-/repo}
 clang -std=gnu99 -O1 -g -fsanitize=address,undefined -fno-sanitize=alignment -fno-omit-frame-pointer \
-  -I$REPO/include -I$REPO/include_prv /verif/harness/misuse_drv.c /verif/build/asan/libjls.a \
+  -I$REPO/include -I$REPO/include_prv /verif/harness/misuse_drv.c ${JLS_BUILD_DIR:-/verif/build}/asan/libjls.a \
   -Wl,--wrap=malloc -Wl,--wrap=calloc -Wl,--wrap=realloc -Wl,--wrap=free -lm -lpthread -o "$OUT"
 echo "$OUT"
